@@ -647,7 +647,8 @@ Section LossTwoPoint.
     unfold loss_lml_timeseries_terms.
     assert (Hleb : Nat.leb i (sh_q (mkShape BlockDiag q 1)) = true) by (apply Nat.leb_le; exact Hi).
     rewrite Hleb.
-    change (std_shapes_ok (mkShape BlockDiag q 1) (length [[[[y0]]]; [[[y1]]]]) [[r0]; [r1]]) with true.
+    change (std_shapes_ok (mkShape BlockDiag q 1) (length [[[[y0]]]; [[[y1]]]])
+              (ms_marginal (mkMS (Single [mkN mu P]) [[K]])) [[r0]; [r1]]) with true.
     cbn [andb remove_filtering_distributions ms_marginal ms_conditional map].
     rewrite !to_derivative_single_block.
     unfold evaluate_lml_terms.
